@@ -166,6 +166,9 @@ def r06_2(ctx, run, rule='R06.2', floor=28):
 
 # ------------------------------------------------------------------ R06.5 positions: sign-losing casts
 
+PURE_ARITH = ('saturating_add', 'saturating_sub', 'wrapping_add', 'wrapping_sub', 'min', 'max', 'clamp', 'abs', 'unsigned_abs', 'rem_euclid')
+
+
 def r06_5(ctx, run, rule='R06.5'):
     """Every i32 -> usize cast of a position in the editors has a provably non-negative operand on its path,
     and an insertion position is provably <= len."""
@@ -200,6 +203,18 @@ def r06_5(ctx, run, rule='R06.5'):
                     continue
                 r = rg.term_range(b, src, pf, 'i32')
                 ok = not r.empty() and r.lo() >= 0
+                if not ok:
+                    # the same pure arithmetic call (saturating / wrapping / checked add, min, max ...) on the same operands was tested on the path:
+                    # two evaluations of it are one value, whatever block each sits in
+                    s0 = deref_all(src)
+                    if s0[0] == 'call' and canon(s0[1]).split('::')[-1] in PURE_ARITH:
+                        for c_ in q.conds[:ci]:
+                            for x_ in subterms(c_[0]):
+                                if x_[0] == 'call' and x_ != s0 and x_[1] == s0[1] and x_[2] == s0[2]:
+                                    r2 = rg.term_range(b, x_, pf, 'i32')
+                                    if not r2.empty():
+                                        r = r.intersect(r2) if not r.intersect(r2).empty() else r
+                        ok = not r.empty() and r.lo() >= 0
                 k = (b.path, show(src)[:70])
                 d = sites.setdefault(k, {'ok': True, 'why': str(r), 'line': line})
                 if not ok:
